@@ -6,6 +6,8 @@ import (
 	"math/big"
 	"strconv"
 	"strings"
+
+	"verif/harness/mbt"
 )
 
 // Failure signatures. They are built from the classes of the required and of the observed
@@ -79,6 +81,9 @@ func classify(cs *caseT, law, inCls, outCls, diff string) (sig, what string) {
 	what = fmt.Sprintf("%s %s denotes 0x%s (%s) but is printed as %s", q.kind, q.lit, cs.inR.bits, inCls, cs.lib.out)
 	if cs.in.via != "" {
 		what = fmt.Sprintf("constant.%s(%s, %v) (the value of %s, 0x%s, %s) is printed as %s", cs.in.via, q.kind, cs.in.val, q.lit, cs.inR.bits, inCls, cs.lib.out)
+	}
+	if cs.in.pos != "" {
+		what = fmt.Sprintf("%s %s at position %q (other leaves: %s %s) denotes 0x%s (%s) but the literal printed at that place is %s [%s]", q.kind, q.lit, cs.in.pos, cs.in.sib, cs.in.sibl, cs.inR.bits, inCls, cs.lib.out, mbt.Truncate(cs.lib.detail, 160))
 	}
 	if law == "printed-rejected" {
 		what += fmt.Sprintf(", which llvm-as rejects: %s", cs.outR.diag)
